@@ -218,10 +218,18 @@ Section Parity.
   Qed.
 
   Lemma odrop_refused o : odrop o = Ok WRefused -> o = Ok WRefused.
-  Proof. destruct o as [[r|]|e|]; cbn; intros H; try discriminate; reflexivity. Qed.
+  Proof. destruct o as [[r| |]|e|]; cbn; intros H; try discriminate; reflexivity. Qed.
 
   Lemma onorm_odrop o : onorm (odrop o) = odrop (onorm o).
-  Proof. destruct o as [[r|]|e|]; reflexivity. Qed.
+  Proof. destruct o as [[r| |]|e|]; reflexivity. Qed.
+
+  (** [send] hands the client a well-framed message (its [content-length] is [ensure_length]'s) *)
+  Lemma send_not_broken p secure alt m sd r : sendX p secure alt m sd r <> Ok WBroken.
+  Proof.
+    unfold send. destruct (apply_sd checked error_page sd (add_alt_svc secure alt r)) as [a|e|]; cbn [obind];
+      try discriminate.
+    destruct p; [discriminate|]. destruct (h2_refuses _); discriminate.
+  Qed.
 
   Lemma head_parity_lemma secure1 alt sd r :
     onorm (sendX H1 secure1 alt M_HEAD sd r) = odrop (onorm (sendX H2 true alt M_GET sd r)) /\
@@ -830,13 +838,13 @@ Section ConnLoopProofs.
 
   (** HTTP/1 (repaired): the same, as long as no answer makes the connection's task panic *)
   Lemma conn_loop_h1 secure s now dt qs :
-    Forall declaredX qs -> Forall (fun w => exists r, w = Ok r) (seqX H1 secure s now dt qs) ->
+    Forall declaredX qs -> Forall (fun w => exists r, w = Ok r /\ r <> WBroken) (seqX H1 secure s now dt qs) ->
     loopX H1 true secure s COpen now dt qs = map Some (seqX H1 secure s now dt qs).
   Proof.
     revert s now. induction qs as [|q qs IH]; intros s now Hd Hok; cbn [conn_loop serve_seq map] in *; [reflexivity|].
     destruct (ans H1 secure s now q) as [s' w]. cbn [map].
-    inversion Hd as [|? ? Hq Hd']; subst. inversion Hok as [|? ? [r Hw] Hok']; subst.
-    rewrite (h1_after_drain s q Hq), (IH s' (now + dt) Hd' Hok'). reflexivity.
+    inversion Hd as [|? ? Hq Hd']; subst. inversion Hok as [|? ? [r [Hw Hnb]] Hok']; subst.
+    destruct r; [| | contradiction]; rewrite (h1_after_drain s q Hq), (IH s' (now + dt) Hd' Hok'); reflexivity.
   Qed.
 
   (** parity of the specification's view, from parity of one step *)
@@ -964,6 +972,16 @@ Section HistoryParity.
     - intros. rewrite !ans_step_answer. apply answer_parity. exact Hpkg.
   Qed.
 
+  Lemma answers_not_broken p secure st now dt bs : Forall (fun w => w <> Ok WBroken) (answersX p secure st now dt bs).
+  Proof.
+    unfold answers. revert st now. induction bs as [|b bs IH]; intros st now; cbn [serve_seq]; [constructor|].
+    pose proof (ans_step_answer p secure st now b) as Ha.
+    destruct (stepX p secure st now b) as [s' w]. cbn [snd] in Ha. constructor; [|apply IH].
+    rewrite Ha. unfold answer.
+    destruct (serve hstate compute cache_on ims_on parse_ims sanitize_ok prime negotiate vary_tuple vary_header st now (b_req b))
+      as [[st' rp] lg]. apply send_not_broken.
+  Qed.
+
   Definition declared_b (b : breq) : Prop := pr_no_request_body (rq_method (b_req b)) = true -> b_len b = 0.
 
   Lemma history_parity_lemma secure1 st now dt bs :
@@ -975,8 +993,13 @@ Section HistoryParity.
   Proof.
     intros Hd Hnp. pose proof (answers_parity secure1 st now dt bs) as Hpar.
     split; [|split; [apply conn_loop_h2 | exact Hpar]].
-    unfold conn_hist, answers. apply conn_loop_h1; [exact Hd|].
-    apply (map_onorm_ok _ _ Hpar).
+    unfold conn_hist. apply conn_loop_h1; [exact Hd|]. fold (answersX H1 secure1 st now dt bs).
+    pose proof (answers_not_broken H1 secure1 st now dt bs) as Hnb.
+    cut (Forall (fun w : outcome wreply => exists r, w = Ok r) (answersX H1 secure1 st now dt bs)).
+    { intros Hok. apply Forall_forall. intros w Hw.
+      destruct (proj1 (Forall_forall _ _) Hok w Hw) as [r Hr]. exists r. split; [exact Hr|].
+      intros ->. subst w. exact (proj1 (Forall_forall _ _) Hnb _ Hw eq_refl). }
+    unfold answers. apply (map_onorm_ok _ _ Hpar).
     assert (G : forall s n l, Forall (fun w => w <> Panic) (serve_seq (state hstate) breq stepX H2 true s n dt l) ->
                               Forall (fun w : outcome wreply => exists r, w = Ok r) (serve_seq (state hstate) breq stepX H2 true s n dt l)).
     { intros s n l. revert s n. induction l as [|b l IH]; intros s n F; cbn [serve_seq] in *; [constructor|].
@@ -992,7 +1015,416 @@ Section HistoryParity.
   Qed.
 End HistoryParity.
 
+(** ---------------------------------------------------------------------------------------------
+    the response pipe: head, body, future, close
+    --------------------------------------------------------------------------------------------- *)
+Lemma assoc_app n (a c : headers) :
+  assoc n (a ++ c) = match assoc n a with Some v => Some v | None => assoc n c end.
+Proof.
+  induction a as [|[k v] a IH]; cbn [app assoc]; [reflexivity|]. destruct (beq n k); [reflexivity | exact IH].
+Qed.
+
+Lemma assoc_insert_same n v h : assoc n (hm_insert n v h) = Some v.
+Proof. unfold hm_insert. rewrite assoc_app, assoc_remove, beq_refl. cbn [assoc]. rewrite beq_refl. reflexivity. Qed.
+
+Lemma assoc_insert_other n k v h : beq k n = false -> assoc n (hm_insert k v h) = assoc n h.
+Proof.
+  intros E. unfold hm_insert. rewrite assoc_app, assoc_remove, E. cbn [assoc].
+  destruct (assoc n h); [reflexivity|]. destruct (beq n k) eqn:E'; [|reflexivity].
+  apply beq_eq in E'. subst. rewrite beq_refl in E. discriminate.
+Qed.
+
+Lemma assoc_CL_h1_connection h : assoc H_CL (h1_connection h) = assoc H_CL h.
+Proof.
+  unfold h1_connection. destruct (assoc H_CONN h) as [v|].
+  - destruct (to_str_ok v && negb (beq v V_CLOSE)); [reflexivity | apply assoc_insert_other; reflexivity].
+  - apply assoc_insert_other; reflexivity.
+Qed.
+
+Lemma assoc_CL_h2_strip h : assoc H_CL (h2_strip h) = assoc H_CL h.
+Proof.
+  unfold h2_strip.
+  set (h1 := hm_remove H_UPGRADE (hm_remove H_TENC (hm_remove H_PROXYC (hm_remove H_KA (hm_remove H_CONN h))))).
+  assert (E : assoc H_CL h1 = assoc H_CL h) by (unfold h1; rewrite !assoc_remove; reflexivity).
+  destruct (assoc H_TE h1) as [v|]; [|exact E].
+  destruct (beq v V_TRAILERS); [exact E|]. rewrite assoc_remove. exact E.
+Qed.
+
+Lemma assoc_CL_alt secure alt r : assoc H_CL (rs_headers (add_alt_svc secure alt r)) = assoc H_CL (rs_headers r).
+Proof.
+  unfold add_alt_svc. destruct alt as [v|]; [|reflexivity]. destruct secure; [|reflexivity].
+  cbn [rs_headers]. unfold hm_append. rewrite assoc_app. destruct (assoc H_CL (rs_headers r)); reflexivity.
+Qed.
+
+Lemma assoc_CL_ensure_H1 n h : assoc H_CL (ensure_length H1 n h) = Some (dec n).
+Proof. apply assoc_insert_same. Qed.
+Lemma assoc_CL_ensure_H2 n h :
+  assoc H_CL (ensure_length H2 n h) = match assoc H_CL h with Some _ => Some (dec n) | None => None end.
+Proof.
+  cbn [ensure_length]. unfold hm_has. destruct (assoc H_CL h) eqn:E; [apply assoc_insert_same | exact E].
+Qed.
+
+Lemma N_len_zero (b : bytes) : (N.of_nat (length b) =? 0) = true <-> b = [].
+Proof. destruct b; cbn [length]; split; intros H; try reflexivity; try discriminate; lia. Qed.
+
+Lemma pipe_chunks_H1 a cs :
+  pipe_chunks H1 a cs = mkArr (a_head a) (a_bytes a ++ concat cs) (a_ended a).
+Proof.
+  revert a. induction cs as [|c cs IH]; intros a; cbn [pipe_chunks concat].
+  - rewrite app_nil_r. destruct a as [hd0 bs0 en0]; reflexivity.
+  - unfold pipe_data. cbn [negb andb]. destruct (N.of_nat (length c) =? 0) eqn:E.
+    + apply N_len_zero in E. subst c. rewrite IH. reflexivity.
+    + rewrite IH. cbn [a_head a_bytes a_ended]. rewrite app_assoc. reflexivity.
+Qed.
+
+Lemma pipe_chunks_H2 a cs : a_ended a = false ->
+  pipe_chunks H2 a cs = mkArr (a_head a) (a_bytes a ++ concat cs) false.
+Proof.
+  revert a. induction cs as [|c cs IH]; intros a Ha; cbn [pipe_chunks concat].
+  - rewrite app_nil_r. destruct a as [hd0 bs0 en0]; cbn [a_ended] in Ha; subst; reflexivity.
+  - unfold pipe_data. cbn [negb andb]. destruct (N.of_nat (length c) =? 0) eqn:E.
+    + apply N_len_zero in E. subst c. rewrite (IH a Ha). reflexivity.
+    + rewrite Ha. rewrite IH by reflexivity. cbn [a_head a_bytes a_ended]. rewrite app_assoc. reflexivity.
+Qed.
+
+(** [sends_body]: a non-empty body, unless the request is HEAD *)
+Lemma sends_body_spec m body :
+  sends_body m body = negb (N.of_nat (length body) =? 0) && negb (m =? M_HEAD).
+Proof.
+  unfold sends_body, method_has_response_body, M_GET, M_POST, M_OPTIONS, M_HEAD.
+  destruct (N.of_nat (length body) =? 0); cbn [negb andb orb]; [reflexivity|].
+  destruct (m =? 0) eqn:E0; [replace m with 0 by lia; reflexivity|].
+  destruct (m =? 2) eqn:E2; [replace m with 2 by lia; reflexivity|].
+  destruct (m =? 3) eqn:E3; [replace m with 3 by lia; reflexivity|].
+  cbn [orb]. reflexivity.
+Qed.
+
+Section Pipe.
+  Variable checked : bool.
+  Variable error_page : N -> resp.
+  Variable pkg : N -> headers -> headers.
+
+  (** what [pipe_send] (with [head_eos = false], kvarn's value) delivers: the head, then body and chunks in that
+      order, and the stream ended *)
+  Lemma pipe_send_H1 v st h body cs :
+    pipe_send H1 false v st h body cs
+    = mkArr (Some (v, st, h1_connection h)) ((match body with Some b => b | None => [] end) ++ concat cs) false.
+  Proof.
+    unfold pipe_send, pipe_head.
+    assert (D : forall a b, pipe_data H1 a b false = Some (mkArr (a_head a) (a_bytes a ++ b) (a_ended a))).
+    { intros a b. unfold pipe_data. cbn [negb andb]. destruct (N.of_nat (length b) =? 0) eqn:E; [|reflexivity].
+      apply N_len_zero in E. subst b. rewrite app_nil_r. destruct a as [hd0 bs0 en0]; reflexivity. }
+    destruct body as [b|]; [rewrite D|]; rewrite pipe_chunks_H1; unfold pipe_data; cbn [negb andb a_head a_bytes a_ended];
+      rewrite app_nil_r; reflexivity.
+  Qed.
+
+  Lemma pipe_send_H2 v st h body cs :
+    pipe_send H2 false v st h body cs
+    = if h2_refuses (h2_strip h) then arr0
+      else mkArr (Some (v, st, h2_strip h)) ((match body with Some b => b | None => [] end) ++ concat cs) true.
+  Proof.
+    unfold pipe_send, pipe_head. destruct (h2_refuses (h2_strip h)); [reflexivity|].
+    assert (D : forall a b, a_ended a = false -> pipe_data H2 a b false = Some (mkArr (a_head a) (a_bytes a ++ b) false)).
+    { intros a b Ha. unfold pipe_data. cbn [negb andb]. destruct (N.of_nat (length b) =? 0) eqn:E.
+      - apply N_len_zero in E. subst b. rewrite app_nil_r. destruct a as [hd0 bs0 en0]; cbn [a_ended] in Ha; subst; reflexivity.
+      - rewrite Ha. reflexivity. }
+    destruct body as [b|]; [rewrite D by reflexivity|]; rewrite pipe_chunks_H2 by reflexivity; unfold pipe_data;
+      cbn [negb andb a_head a_bytes a_ended]; rewrite app_nil_r; reflexivity.
+  Qed.
+
+  Notation sendX := (send checked error_page pkg).
+  Notation pipeX := (send_pipe checked error_page pkg).
+
+  (** the body a non-streaming [send] puts on the pipe is the body [send] reports *)
+  Lemma body_opt_bytes m (b : bytes) :
+    (match (if sends_body m b then Some b else None) with Some x => x | None => [] end)
+    = if sends_body m b then b else [].
+  Proof. destruct (sends_body m b); reflexivity. Qed.
+
+  Lemma sent_length m (b : bytes) : (m =? M_HEAD) = false ->
+    N.of_nat (length (if sends_body m b then b else [])) = N.of_nat (length b).
+  Proof.
+    intros Hm. rewrite sends_body_spec, Hm. cbn [negb]. rewrite andb_true_r.
+    destruct (N.of_nat (length b) =? 0) eqn:E; cbn [negb]; [|reflexivity].
+    apply N_len_zero in E. subst b. reflexivity.
+  Qed.
+
+  (** Without a future the pipe-level model is [send]: head, body, close arrive as the well-framed response [send]
+      constructs — provided no Package extension touches [content-length]. *)
+  Lemma send_pipe_no_future hf p secure alt m sd r : pkg_keeps_length pkg ->
+    pipeX hf p secure alt m sd r None = sendX p secure alt m sd r.
+  Proof.
+    intros Hk. unfold send_pipe, send.
+    destruct (apply_sd checked error_page sd (add_alt_svc secure alt r)) as [a|e|]; cbn [obind]; try reflexivity.
+    set (len := N.of_nat (length (rs_body a))).
+    set (v := ensure_version p (rs_version a)).
+    f_equal. destruct p.
+    - rewrite pipe_send_H1. cbn [concat]. rewrite app_nil_r, body_opt_bytes.
+      unfold receive. cbn [a_head a_bytes a_ended].
+      destruct (m =? M_HEAD) eqn:Hm.
+      + assert (m = M_HEAD) by lia. subst m. rewrite sends_body_head. cbn [length]. reflexivity.
+      + rewrite assoc_CL_h1_connection, Hk, assoc_CL_ensure_H1, (sent_length m _ Hm). fold len.
+        rewrite beq_refl. reflexivity.
+    - rewrite pipe_send_H2. cbn [concat]. rewrite app_nil_r, body_opt_bytes.
+      destruct (h2_refuses (h2_strip (pkg v (ensure_length H2 len (rs_headers a))))); [reflexivity|].
+      unfold receive. cbn [a_head a_bytes a_ended negb].
+      destruct (m =? M_HEAD) eqn:Hm.
+      + assert (m = M_HEAD) by lia. subst m. rewrite sends_body_head. cbn [length]. reflexivity.
+      + rewrite assoc_CL_h2_strip, Hk, assoc_CL_ensure_H2, (sent_length m _ Hm). fold len.
+        destruct (assoc H_CL (rs_headers a)); [rewrite beq_refl|]; reflexivity.
+  Qed.
+
+  (** A streamed response (repaired code): on either protocol the client receives ONE well-framed response whose body
+      is what [Response::body] and then the future wrote, in that order — nothing for HEAD —, whenever the announced
+      length is the number of those bytes. *)
+  Lemma send_pipe_stream p secure alt m sd r cs ol : pkg_keeps_length pkg -> fut_framed r (Some (cs, ol)) ->
+    exists v h, pipeX false p secure alt m sd r (Some (cs, ol))
+                = Ok (WResp (mkResp v (rs_status r) h (if m =? M_HEAD then [] else rs_body r ++ concat cs)))
+                /\ v = ensure_version p (rs_version r)
+                /\ strip h = strip (pkg v (match ol with
+                                           | Some n => ensure_length p n (rs_headers (add_alt_svc secure alt r))
+                                           | None => rs_headers (add_alt_svc secure alt r) end)).
+  Proof.
+    intros Hk Hf. unfold send_pipe. cbn [obind orb].
+    set (r0 := add_alt_svc secure alt r).
+    assert (Hb : rs_body r0 = rs_body r) by apply add_alt_svc_body.
+    assert (Hs : rs_status r0 = rs_status r) by apply add_alt_svc_status.
+    assert (Hv : rs_version r0 = rs_version r) by (unfold r0, add_alt_svc; destruct alt; [destruct secure|]; reflexivity).
+    rewrite Hb, Hs, Hv.
+    set (v := ensure_version p (rs_version r)).
+    set (h1 := match ol with Some n => ensure_length p n (rs_headers r0) | None => rs_headers r0 end).
+    (* the [content-length] the client sees, if any, is the number of bytes written *)
+    assert (HCL : forall c, assoc H_CL (pkg v h1) = Some c ->
+                            c = dec (N.of_nat (length (rs_body r ++ concat cs)))).
+    { intros c Hc. rewrite Hk in Hc. unfold h1 in Hc. cbn [fut_framed] in Hf. destruct ol as [n|].
+      - subst n. destruct p; [rewrite assoc_CL_ensure_H1 in Hc | rewrite assoc_CL_ensure_H2 in Hc;
+          destruct (assoc H_CL (rs_headers r0)); [|discriminate]]; inversion Hc; reflexivity.
+      - unfold r0 in Hc. rewrite assoc_CL_alt, Hf in Hc. inversion Hc. reflexivity. }
+    assert (HCL1 : p = H1 -> exists c, assoc H_CL (pkg v h1) = Some c).
+    { intros ->. rewrite Hk. unfold h1. cbn [fut_framed] in Hf. destruct ol as [n|].
+      - rewrite assoc_CL_ensure_H1. eexists; reflexivity.
+      - unfold r0. rewrite assoc_CL_alt, Hf. eexists; reflexivity. }
+    exists v. destruct (m =? M_HEAD) eqn:Hm.
+    - (* HEAD: neither the body nor the future is written *)
+      assert (m = M_HEAD) by lia. subst m. rewrite sends_body_head. cbn [negb].
+      destruct p.
+      + rewrite pipe_send_H1. exists (h1_connection (pkg v h1)). split; [|split; [reflexivity | apply strip_h1_connection]].
+        unfold receive. cbn [a_head a_bytes a_ended concat app length]. reflexivity.
+      + rewrite pipe_send_H2, h2_strip_accepted. exists (h2_strip (pkg v h1)).
+        split; [|split; [reflexivity | apply strip_h2_strip]].
+        unfold receive. cbn [a_head a_bytes a_ended concat app length]. reflexivity.
+    - cbn [negb].
+      assert (Hbytes : (match (if sends_body m (rs_body r) then Some (rs_body r) else None) with Some b => b | None => [] end)
+                       ++ concat cs = rs_body r ++ concat cs).
+      { rewrite body_opt_bytes, sends_body_spec, Hm. cbn [negb]. rewrite andb_true_r.
+        destruct (N.of_nat (length (rs_body r)) =? 0) eqn:E; cbn [negb]; [|reflexivity].
+        apply N_len_zero in E. rewrite E. reflexivity. }
+      destruct p.
+      + rewrite pipe_send_H1, Hbytes. exists (h1_connection (pkg v h1)).
+        split; [|split; [reflexivity | apply strip_h1_connection]].
+        unfold receive. cbn [a_head a_bytes a_ended]. rewrite Hm, assoc_CL_h1_connection.
+        destruct (HCL1 eq_refl) as [c Hc]. rewrite Hc, (HCL c Hc), beq_refl. reflexivity.
+      + rewrite pipe_send_H2, h2_strip_accepted, Hbytes. exists (h2_strip (pkg v h1)).
+        split; [|split; [reflexivity | apply strip_h2_strip]].
+        unfold receive. cbn [a_head a_bytes a_ended negb]. rewrite Hm, assoc_CL_h2_strip.
+        destruct (assoc H_CL (pkg v h1)) as [c|] eqn:Hc; [|reflexivity].
+        rewrite (HCL c eq_refl), beq_refl. reflexivity.
+  Qed.
+
+  Lemma strip_ol_cong (ol : option N) p q h h' : strip h = strip h' ->
+    strip (match ol with Some n => ensure_length p n h | None => h end)
+    = strip (match ol with Some n => ensure_length q n h' | None => h' end).
+  Proof. intros E. destruct ol; [rewrite !strip_ensure_length|]; exact E. Qed.
+
+  (** protocol parity of [send_pipe], streamed or not *)
+  Lemma send_pipe_parity secure1 alt m sd r f :
+    pkg_oblivious pkg -> pkg_keeps_length pkg -> fut_framed r f ->
+    onorm (pipeX false H1 secure1 alt m sd r f) = onorm (pipeX false H2 true alt m sd r f).
+  Proof.
+    intros Ho Hk Hf. destruct f as [[cs ol]|].
+    - destruct (send_pipe_stream H1 secure1 alt m sd r cs ol Hk Hf) as (v1 & h1 & E1 & _ & S1).
+      destruct (send_pipe_stream H2 true alt m sd r cs ol Hk Hf) as (v2 & h2 & E2 & _ & S2).
+      rewrite E1, E2. cbn [onorm normalise rs_status rs_headers rs_body]. rewrite S1, S2.
+      f_equal. f_equal. f_equal. apply Ho. apply strip_ol_cong.
+      destruct (add_alt_svc_eqv secure1 true alt r) as (_ & _ & E & _). exact E.
+    - rewrite !send_pipe_no_future by exact Hk. apply send_parity. exact Ho.
+  Qed.
+
+  (** [handle_connection]'s own answers (429, 409) *)
+  Lemma send_direct_resp p m r :
+    exists h, send_direct p m r
+              = Ok (WResp (mkResp (ensure_version p (rs_version r)) (rs_status r) h (if m =? M_HEAD then [] else rs_body r)))
+              /\ strip h = strip (rs_headers r).
+  Proof.
+    unfold send_direct. set (len := N.of_nat (length (rs_body r))). set (v := ensure_version p (rs_version r)).
+    set (body := if m =? M_HEAD then [] else rs_body r).
+    assert (D : forall q a, a_ended a = false -> pipe_data q a body true = Some (mkArr (a_head a) (a_bytes a ++ body) (match q with H1 => false | H2 => true end))).
+    { intros q a Ha. unfold pipe_data. cbn [negb andb]. destruct q; [|rewrite Ha]; rewrite ?Ha; reflexivity. }
+    destruct p.
+    - cbn [pipe_head]. rewrite D by reflexivity. exists (h1_connection (ensure_length H1 len (rs_headers r))).
+      split; [|rewrite strip_h1_connection; apply strip_ensure_length].
+      unfold receive. cbn [a_head a_bytes a_ended app]. unfold body. destruct (m =? M_HEAD) eqn:Hm; [reflexivity|].
+      rewrite assoc_CL_h1_connection, assoc_CL_ensure_H1. fold len. rewrite beq_refl. reflexivity.
+    - cbn [pipe_head]. rewrite h2_strip_accepted, D by reflexivity.
+      exists (h2_strip (ensure_length H2 len (rs_headers r))).
+      split; [|rewrite strip_h2_strip; apply strip_ensure_length].
+      unfold receive. cbn [a_head a_bytes a_ended app negb]. unfold body. destruct (m =? M_HEAD) eqn:Hm; [reflexivity|].
+      rewrite assoc_CL_h2_strip, assoc_CL_ensure_H2. fold len.
+      destruct (assoc H_CL (rs_headers r)); [rewrite beq_refl|]; reflexivity.
+  Qed.
+
+  Lemma send_direct_parity m r : onorm (send_direct H1 m r) = onorm (send_direct H2 m r).
+  Proof.
+    destruct (send_direct_resp H1 m r) as (h1 & E1 & S1). destruct (send_direct_resp H2 m r) as (h2 & E2 & S2).
+    rewrite E1, E2. cbn [onorm normalise rs_status rs_headers rs_body]. rewrite S1, S2. reflexivity.
+  Qed.
+End Pipe.
+
+(** the code before the repair 572c88a ran the future for HEAD too: the streamed bytes follow the head of the HEAD answer
+    — stray bytes on the HTTP/1 connection, DATA the h2 client refuses on the HTTP/2 stream *)
+Lemma head_stream_v0_refuted_lemma : exists r cs n,
+  fut_framed r (Some (cs, Some n)) /\
+  send_pipe false (fun _ => r) (fun _ h => h) true H1 true None M_HEAD (Ok None) r (Some (cs, Some n)) = Ok WBroken /\
+  send_pipe false (fun _ => r) (fun _ h => h) true H2 true None M_HEAD (Ok None) r (Some (cs, Some n)) = Ok WBroken /\
+  (exists w1 w2, send_pipe false (fun _ => r) (fun _ h => h) false H1 true None M_HEAD (Ok None) r (Some (cs, Some n)) = Ok (WResp w1) /\
+                 send_pipe false (fun _ => r) (fun _ h => h) false H2 true None M_HEAD (Ok None) r (Some (cs, Some n)) = Ok (WResp w2) /\
+                 rs_body w1 = [] /\ rs_body w2 = []).
+Proof.
+  exists (mkResp V11 200 [(B "content-type", B "text/plain")] []), [B "first "; B "second"], 12.
+  split; [reflexivity|]. split; [vm_compute; reflexivity|]. split; [vm_compute; reflexivity|].
+  eexists. eexists. vm_compute. repeat split.
+Qed.
+
+(** why [send_response(head, false)]: were the head of a response with an EMPTY [Response::body] sent with END_STREAM
+    ("a response without a body is complete with its head"), the HTTP/2 client of a streamed response would get an empty
+    body — every write of the future fails on the ended stream — while the HTTP/1.1 client gets the streamed bytes *)
+Lemma head_end_of_stream_refuted_lemma : exists v st h cs,
+  concat cs <> [] /\
+  receive H1 M_GET (pipe_send H1 true v st (ensure_length H1 (N.of_nat (length (concat cs))) h) None cs)
+    = WResp (mkResp v st (h1_connection (ensure_length H1 (N.of_nat (length (concat cs))) h)) (concat cs)) /\
+  receive H2 M_GET (pipe_send H2 true v st h None cs) = WResp (mkResp v st (h2_strip h) []) /\
+  receive H2 M_GET (pipe_send H2 false v st h None cs) = WResp (mkResp v st (h2_strip h) (concat cs)).
+Proof.
+  exists V11, 200, [(B "content-type", B "text/plain")], [B "first "; B "second"].
+  split; [discriminate|]. split; [vm_compute; reflexivity|]. split; vm_compute; reflexivity.
+Qed.
+
+(** ---------------------------------------------------------------------------------------------
+    request bodies: which bytes [read_to_bytes(max_len)] returns
+    --------------------------------------------------------------------------------------------- *)
+Lemma firstn_min_all {A} n (l : list A) : firstn (Nat.min (length l) n) l = firstn n l.
+Proof.
+  destruct (Nat.le_ge_cases (length l) n) as [H|H].
+  - rewrite Nat.min_l by exact H. rewrite firstn_all, firstn_all2 by exact H. reflexivity.
+  - rewrite Nat.min_r by exact H. reflexivity.
+Qed.
+
+Lemma h1_read_first early conn max_len :
+  fst (h1_read_to_bytes (mkH1B early conn (N.of_nat (length (early ++ conn)))) max_len)
+  = firstn (N.to_nat max_len) (early ++ conn).
+Proof.
+  unfold h1_read_to_bytes. cbn [hb_cl hb_early hb_conn].
+  set (body := early ++ conn).
+  destruct (N.min (N.of_nat (length body)) max_len =? 0) eqn:E; cbn [fst].
+  - assert (H : length body = 0%nat \/ max_len = 0) by lia. destruct H as [H|H].
+    + destruct body; [|discriminate H]. rewrite firstn_nil. reflexivity.
+    + rewrite H. reflexivity.
+  - replace (N.to_nat (N.min (N.of_nat (length body)) max_len)) with (Nat.min (length body) (N.to_nat max_len)) by lia.
+    set (len := Nat.min (length body) (N.to_nat max_len)).
+    rewrite <- (firstn_min_all (N.to_nat max_len) body). fold len. unfold body.
+    rewrite (firstn_app len early conn). f_equal. f_equal.
+    rewrite firstn_length. lia.
+Qed.
+
+Lemma h2_read_loop_spec max_len frames : forall acc,
+  N.of_nat (length acc) <= max_len ->
+  fst (h2_read_loop max_len acc frames) = firstn (N.to_nat max_len) (acc ++ concat frames).
+Proof.
+  induction frames as [|d rest IH]; intros acc Hacc; cbn [h2_read_loop concat fst].
+  - rewrite app_nil_r. symmetry. apply firstn_all2. lia.
+  - destruct (max_len - N.of_nat (length acc) =? 0) eqn:E; cbn [fst].
+    + assert (Hl : length acc = N.to_nat max_len) by lia.
+      rewrite firstn_app, Hl, Nat.sub_diag, firstn_O, app_nil_r. symmetry. apply firstn_all2. lia.
+    + set (left := N.to_nat (max_len - N.of_nat (length acc))).
+      assert (Hleft : (left = N.to_nat max_len - length acc)%nat) by (unfold left; lia).
+      assert (Hlen' : length (acc ++ firstn left d) = (length acc + Nat.min left (length d))%nat)
+        by (rewrite app_length, firstn_length; reflexivity).
+      destruct (max_len - N.of_nat (length (acc ++ firstn left d)) =? 0) eqn:E'; cbn [fst].
+      * (* the limit is reached inside this frame *)
+        assert (Hd : (left <= length d)%nat) by lia.
+        rewrite firstn_app. rewrite (firstn_all2 (n := N.to_nat max_len) acc) by lia.
+        f_equal. rewrite <- Hleft. rewrite firstn_app.
+        replace (left - length d)%nat with 0%nat by lia. rewrite firstn_O, app_nil_r. reflexivity.
+      * (* the whole frame is taken *)
+        assert (Hd : (length d < left)%nat) by lia.
+        rewrite (firstn_all2 (n := left) d) by lia.
+        rewrite IH by (rewrite app_length; lia). rewrite <- app_assoc. reflexivity.
+Qed.
+
+(** For every request body, however it is cut into DATA frames (HTTP/2) and however much of it arrives with the head
+    (HTTP/1), and every limit: [read_to_bytes(max_len)] hands the handler the first [max_len] bytes of the body on
+    both protocols. *)
+Lemma read_to_bytes_parity_lemma body early conn frames max_len :
+  early ++ conn = body -> concat frames = body ->
+  fst (h1_read_to_bytes (mkH1B early conn (N.of_nat (length body))) max_len) = firstn (N.to_nat max_len) body /\
+  fst (h2_read_to_bytes frames max_len) = firstn (N.to_nat max_len) body.
+Proof.
+  intros He Hf. split.
+  - subst body. apply h1_read_first.
+  - unfold h2_read_to_bytes. rewrite h2_read_loop_spec by (cbn [length]; lia). cbn [app]. rewrite Hf. reflexivity.
+Qed.
+
+(** ... but a handler that calls [read_to_bytes] AGAIN after a call that hit its limit gets nothing on HTTP/1.1 and the
+    DATA frames after the one in which the limit was reached on HTTP/2 *)
+Lemma second_read_refuted_lemma : exists body early conn frames l1 l2,
+  early ++ conn = body /\ concat frames = body /\
+  h1_reads (mkH1B early conn (N.of_nat (length body))) [l1; l2] <> h2_reads frames [l1; l2].
+Proof.
+  exists [1; 2; 3; 4; 5; 6], [1; 2; 3; 4; 5; 6], [], [[1; 2; 3]; [4; 5; 6]], 2, 10.
+  split; [reflexivity|]. split; [reflexivity|]. vm_compute. discriminate.
+Qed.
+
+(** [extensions::stream_body] (repaired, 7cbe1e5): the length it announces is the number of bytes its future writes *)
+Lemma stream_plan_framed_lemma file a c :
+  match stream_plan true file (Some (a, c)) with Some (b, n) => n = N.of_nat (length b) | None => True end /\
+  match stream_plan true file None with Some (b, n) => n = N.of_nat (length b) /\ b = file | None => False end.
+Proof.
+  unfold stream_plan. cbn [andb]. split.
+  - destruct (N.of_nat (length file) <=? a) eqn:E; [exact I|].
+    rewrite firstn_length, skipn_length. lia.
+  - rewrite N.sub_0_r. cbn [skipn N.to_nat]. replace (N.to_nat 0) with 0%nat by reflexivity. cbn [skipn].
+    rewrite N.min_id, firstn_length, Nat2N.id, firstn_all. split; [lia | reflexivity].
+Qed.
+
+Lemma stream_plan_v0_refuted_lemma : exists file a c, a < c /\
+  match stream_plan false file (Some (a, c)) with Some (b, n) => n <> N.of_nat (length b) | None => False end.
+Proof. exists [1; 2; 3], 1, 10. split; [lia|]. vm_compute. discriminate. Qed.
+
 (** ---- the executable history of the correspondence ([pair_hist], components proto.pair / proto.answered) ---- *)
+(** the package menu leaves [content-length] alone whenever none of its extensions names a connection-level header *)
+Lemma run_pkg_op_keeps_CL o h : hop (pkg_op_name o) = false -> assoc H_CL (run_pkg_op o h) = assoc H_CL h.
+Proof.
+  intros Hn. assert (Hne : beq (pkg_op_name o) H_CL = false).
+  { destruct (beq (pkg_op_name o) H_CL) eqn:E; [|reflexivity]. apply beq_eq in E. rewrite E in Hn. discriminate. }
+  destruct o as [n v|n v|n|n v]; cbn [run_pkg_op pkg_op_name] in *.
+  - apply assoc_insert_other. exact Hne.
+  - unfold hm_or_insert. destruct (hm_has n h); [reflexivity|]. rewrite assoc_app. cbn [assoc].
+    destruct (assoc H_CL h); [reflexivity|]. destruct (beq H_CL n) eqn:E; [|reflexivity].
+    apply beq_eq in E. subst. rewrite beq_refl in Hne. discriminate.
+  - rewrite assoc_remove, Hne. reflexivity.
+  - unfold hm_append. rewrite assoc_app. cbn [assoc].
+    destruct (assoc H_CL h); [reflexivity|]. destruct (beq H_CL n) eqn:E; [|reflexivity].
+    apply beq_eq in E. subst. rewrite beq_refl in Hne. discriminate.
+Qed.
+
+Lemma pkg_menu_keeps_length ops :
+  Forall (fun o => hop (pkg_op_name o) = false) ops -> pkg_keeps_length (pkg_menu ops).
+Proof.
+  intros Hops v h. unfold pkg_menu. clear v. revert h.
+  induction Hops as [|o ops Ho _ IH]; intros h; cbn [fold_left]; [reflexivity|].
+  rewrite IH. apply run_pkg_op_keeps_CL. exact Ho.
+Qed.
+
 Section PairHist.
   Variable checked : bool.
   Variable ops : list pkg_op.
@@ -1001,7 +1433,8 @@ Section PairHist.
   Hypothesis Hops : Forall (fun o => hop (pkg_op_name o) = false) ops.
 
   Definition ex_in_domain (e : exch) : Prop :=
-    (pr_no_request_body (ex_method e) = true -> ex_blen e = 0) /\ N.of_nat (length (rs_body (ex_l4 e))) <= u64_max.
+    (pr_no_request_body (ex_method e) = true -> ex_blen e = 0) /\ N.of_nat (length (rs_body (ex_l4 e))) <= u64_max /\
+    fut_framed (ex_l4 e) (ex_fut e).
 
   Lemma ex_seq p secure exs :
     serve_seq unit exch (ex_ans checked ops alt e416) p secure tt 0 1 exs = map (send_ex checked ops alt e416 p secure) exs.
@@ -1012,12 +1445,20 @@ Section PairHist.
 
   Lemma send_ex_resp p secure e : ex_in_domain e -> exists r, send_ex checked ops alt e416 p secure e = Ok (WResp r).
   Proof.
-    intros [_ Hlen]. unfold send_ex.
+    intros (_ & Hlen & Hf). unfold send_ex.
+    destruct (ex_limited e).
+    { destruct (send_direct_resp p (ex_method e) (ex_l4 e)) as (h & E & _). rewrite E. eexists; reflexivity. }
+    pose proof (pkg_menu_keeps_length ops Hops) as Hk.
+    destruct (ex_fut e) as [[cs ol]|].
+    { destruct (send_pipe_stream checked (fun _ => e416) (pkg_menu ops) p secure alt (ex_method e)
+                  (sd_of (ex_path_ok e) (ex_range e)) (ex_l4 e) cs ol Hk Hf) as (v & h & E & _). rewrite E. eexists; reflexivity. }
+    rewrite send_pipe_no_future by exact Hk.
     destruct (send_ok_or_panic checked (fun _ => e416) (pkg_menu ops) p secure alt (ex_method e)
                                (sd_of (ex_path_ok e) (ex_range e)) (ex_l4 e)) as [P|[w Hw]].
     - exfalso. exact (send_no_panic _ _ _ _ _ _ _ _ _ _ Hlen P).
-    - destruct w as [r|]; [exists r; exact Hw|].
-      exfalso. exact (send_never_refused _ _ _ _ _ _ _ _ _ Hw).
+    - destruct w as [r| |]; [exists r; exact Hw| |].
+      + exfalso. exact (send_never_refused _ _ _ _ _ _ _ _ _ Hw).
+      + exfalso. exact (send_not_broken _ _ _ _ _ _ _ _ _ Hw).
   Qed.
 
   Lemma pair_hist_eq p secure exs :
@@ -1029,7 +1470,8 @@ Section PairHist.
     apply conn_loop_h1.
     - apply Forall_forall. intros e He. exact (proj1 (proj1 (Forall_forall _ _) Hd e He)).
     - rewrite ex_seq. apply Forall_forall. intros w Hw. apply in_map_iff in Hw as (e & <- & He).
-      destruct (send_ex_resp H1 secure e (proj1 (Forall_forall _ _) Hd e He)) as [r Hr]. rewrite Hr. eexists; reflexivity.
+      destruct (send_ex_resp H1 secure e (proj1 (Forall_forall _ _) Hd e He)) as [r Hr]. rewrite Hr.
+      eexists; split; [reflexivity | discriminate].
   Qed.
 
   (** for EVERY history in the domain the model component equals the specification component: all requests are
@@ -1046,8 +1488,12 @@ Section PairHist.
     { intros p secure. apply forallb_forall. intros o Ho. apply in_map_iff in Ho as (e & <- & He).
       destruct (send_ex_resp p secure e (proj1 (Forall_forall _ _) Hd e He)) as [r Hr]. rewrite Hr. reflexivity. }
     split; [apply A | split; [apply A|]].
-    rewrite !map_map. apply map_ext. intros e. cbn [option_map]. f_equal. unfold send_ex.
-    apply send_parity. apply pkg_menu_oblivious. exact Hops.
+    rewrite !map_map. apply map_ext_in. intros e He. cbn [option_map]. f_equal. unfold send_ex.
+    destruct (ex_limited e); [apply send_direct_parity|].
+    apply send_pipe_parity.
+    - apply pkg_menu_oblivious. exact Hops.
+    - apply pkg_menu_keeps_length. exact Hops.
+    - exact (proj2 (proj2 (proj1 (Forall_forall _ _) Hd e He))).
   Qed.
 End PairHist.
 
@@ -1062,7 +1508,7 @@ Lemma unread_body_v0_refuted_lemma : exists checked ops alt e416 exs,
   forallb is_resp (pair_hist checked ops alt e416 H1 true true exs) = true.
 Proof.
   exists false, [], None, wit_page,
-    [mkEx M_OTHER (Some (B "bytes=10-4")) true wit_page 700 None; mkEx M_GET None true wit_page 0 None].
+    [mkEx M_OTHER (Some (B "bytes=10-4")) true wit_page 700 None false None; mkEx M_GET None true wit_page 0 None false None].
   split; [|vm_compute; repeat split].
   constructor; [|constructor; [|constructor]]; cbn [ex_method ex_blen]; intros H; [discriminate H | reflexivity].
 Qed.
@@ -1073,6 +1519,6 @@ Lemma undeclared_body_refuted_lemma : exists checked ops alt e416 exs,
   forallb is_resp (pair_hist checked ops alt e416 H1 true true exs) = false /\
   forallb is_resp (pair_hist checked ops alt e416 H2 true true exs) = true.
 Proof.
-  exists false, [], None, wit_page, [mkEx M_GET None true wit_page 5 None; mkEx M_GET None true wit_page 0 None].
+  exists false, [], None, wit_page, [mkEx M_GET None true wit_page 5 None false None; mkEx M_GET None true wit_page 0 None false None].
   vm_compute. split; reflexivity.
 Qed.
